@@ -97,10 +97,34 @@ def rule_symmetry(chk, fb, tier, rid, files=None, floor=30, label="C04"):
     chk.note("%s: %d structs with live reader and writer compared" % (label, n))
 
 
+SEARCHES = ("position", "rposition", "find", "find_map", "any", "all")
+
+
+def scan_scopes(fb, d, b, fl, cfg):
+    """Where a function searches a collection: (scan points, loop blocks, calls made while scanning).
+    A scan is a loop of the function or an iterator search (position / find / any ...) with its closure."""
+    loops = {}
+    for tail, head in cfg.back_edges():
+        loops.setdefault(head, set()).update(cfg.natural_loop(tail, head))
+    loop_blocks = set().union(*loops.values()) if loops else set()
+    points = list(loops)
+    calls = [t for bi, t in fl.calls() if bi in loop_blocks]
+    for bi, t in fl.calls():
+        f = t.get("fn", "")
+        if f.split("::")[-1] in SEARCHES and ("Iterator" in f or "iter::" in f or "slice::" in f):
+            points.append(bi)
+            for a in t["args"][1:]:
+                for at in fl.atoms(a):
+                    if at[0] == "cfn" and at[1] in fb.mir:
+                        for cd in [at[1]] + [c for c in fb.mir if c.startswith(at[1] + "::{closure")]:
+                            calls.extend(tt for _, tt in fb.calls_in(fb.mir[cd]))
+    return points, loop_blocks, calls
+
+
 def rule_reuse(chk, fb):
     rc = chk.rule(
         "C04.c",
-        "interning reuses before appending: in every set_style of the style tables the append is outside the scan loop, is reached only after the scan (the loop header dominates it) and the scan returns the found index from inside the loop",
+        "interning reuses before appending: in every set_style of the style tables the append is outside the scan (a loop or an iterator search), is reached only after the scan (the scan dominates it) and the scan can return the found index without appending",
         floor=5,
     )
     for d, b in sorted(fb.mir.items()):
@@ -108,10 +132,8 @@ def rule_reuse(chk, fb):
             continue
         cfg = CFG(b)
         fl = Flow(fb, b)
-        loops = {}
-        for tail, head in cfg.back_edges():
-            loops.setdefault(head, set()).update(cfg.natural_loop(tail, head))
-        if not loops:
+        points, all_loop, _ = scan_scopes(fb, d, b, fl, cfg)
+        if not points:
             continue
         # appends: push on a vec field of self, or a crate setter of self that pushes
         adt = b["self_ty"]
@@ -127,14 +149,15 @@ def rule_reuse(chk, fb):
         if not appends:
             continue
         chk.touch(d)
-        all_loop = set().union(*loops.values())
+        app_blocks = {bi for bi, _ in appends}
         for n, (bi, nm) in enumerate(appends):
             in_loop = bi in all_loop
-            dominated = any(cfg.dominates(h, bi) for h in loops)
-            ret_in_loop = any(any(s in cfg.exits or _returns(b, cfg, s, all_loop) for s in cfg.succ[x] if s not in all_loop) for x in all_loop)
-            ok = (not in_loop) and dominated and ret_in_loop
+            dominated = any(cfg.dominates(h, bi) and h != bi for h in points)
+            # the found index can be returned: from some scan point a return is reachable without passing an append
+            ret_found = any(any(e in cfg.reachable(h, avoid=app_blocks) for e in cfg.exits) for h in points)
+            ok = (not in_loop) and dominated and ret_found
             chk.ob(rc, "%s::set_style:append#%d" % (adt.split("::")[-1], n), ok, where="%s:%s" % (b["file"], b["blocks"][bi]["t"]["ln"]),
-                   detail="append (%s) inside the scan loop: %s; scan loop dominates it: %s; the scan can return a found index: %s" % (nm, in_loop, dominated, ret_in_loop))
+                   detail="append (%s) inside the scan loop: %s; the scan dominates it: %s; the scan can return a found index without appending: %s" % (nm, in_loop, dominated, ret_found))
 
 
 def _returns(b, cfg, s, loop):
@@ -150,5 +173,9 @@ def run(chk, fb, tier):
     channels.rule_attr_escape(chk, fb, "C04.a.attr-write")
     rule_symmetry(chk, fb, tier, "C04.b", files=None, floor=250)
     rule_reuse(chk, fb)
+    from props import C06
+
+    C06.rule_variants(chk, fb, "C04.b.variants")
+    symmetry.rule_enum_tables(chk, fb, "C04.b.enums")
     chk.assume("quick-xml escape()/unescape() are inverse on the five predefined entities")
     chk.note("not decided: fixed-point equality of generations (value-level); unknown parts pass-through")
